@@ -538,3 +538,30 @@ def compact_bool_element(rep, rule, prog, cg):
             rep.ok(rule, key, 'accepts the type codes 1 (true) and 2 (false)', r.loc())
         else:
             rep.bad(rule, key, r.loc(), 'compact %s read_bool decides a bool element on codes %s; the encoding is 1 = true, 2 = false' % (label, arms))
+
+
+def writers_do_not_overflow(rep, rule, prog, cg):
+    """no arithmetic in a writer or length pass can overflow on some value (a panic under overflow checks, a wrapped - wrong -
+    header otherwise): every MIR overflow / bounds assert reachable from write_* / *_len of the safe protocols is discharged
+    structurally (constants, wrapping ops, guarded subtraction, usize length sums)"""
+    import audit
+    roots = []
+    for fname in ('binary', 'binary_le', 'compact'):
+        fam = Fam(prog, cg, fname)
+        for d in [fam.W, fam.L] + list(fam.LEN):
+            roots.extend(d.values())
+    seen = cg.reachable(roots, stop=lambda b: b.crate != 'pilota' or not (b.key.startswith('thrift::') or b.key.startswith('<thrift::')))
+    n = 0
+    for b, _ in sorted(seen.values(), key=lambda x: x[0].id):
+        if b.crate != 'pilota' or 'binary_unsafe' in b.key or 'TInputProtocol' in (b.impl_trait or '') or 'TAsyncInputProtocol' in (b.impl_trait or ''):
+            continue
+        for s_ in audit.collect_sites(b, ('assert',)):
+            n += 1
+            key = '%s|%s|%s|%s' % (rule, b.id, s_.what, re.sub(r'\s+', ' ', mirlib.show(mirlib.nosite(('x',)))[:0]) + audit.site_key(s_).split('|', 3)[3][:80])
+            why = audit.auto_discharge_assert(s_) if not audit.discharge(s_) else s_.reason
+            if why:
+                rep.ok(rule, key, why, s_.loc())
+            else:
+                rep.bad(rule, key, s_.loc(), 'writer-side arithmetic that can overflow for some value: %s %s in %s (a field id / size chosen by the caller makes the encoder panic, or wrap to a wrong header, so the value does not round trip)' % (s_.what, s_.detail, b.key))
+    if n < 60:
+        rep.anchor_missing(rule, 'arithmetic sites in writers / length passes (found %d)' % n)
